@@ -355,6 +355,29 @@ type variant struct {
 
 var got []any
 
+// derefAll follows pointers to the value they lead to; a nil pointer on the way stands for the zero value (a wrapper
+// hands a pointer parameter a fresh zero value where encoding/json, decoding nothing, would leave nil: the same argument
+// as far as the documented contract goes).
+func derefAll(v reflect.Value) any {
+	if !v.IsValid() {
+		return nil // a nil interface value
+	}
+	for v.Kind() == reflect.Ptr {
+		if v.IsNil() {
+			t := v.Type()
+			for t.Kind() == reflect.Ptr {
+				t = t.Elem()
+			}
+			return reflect.Zero(t).Interface()
+		}
+		v = v.Elem()
+	}
+	return v.Interface()
+}
+
+// KS is reached only through two pointers (kind "ptrptr").
+type KS struct{ A, B int }
+
 func rec[T any](ctx context.Context, v T) (any, error) { got = append(got, v); return "done", nil }
 
 func variants() map[string]variant {
@@ -493,7 +516,9 @@ func checkKind(c KindCell, res *result) {
 		"int": {rec[int], func() any { return new(int) }}, "string": {rec[string], func() any { return new(string) }},
 		"slice": {rec[[]int], func() any { return new([]int) }}, "array1": {rec[[1]string], func() any { return new([1]string) }},
 		"map": {rec[map[string]int], func() any { return new(map[string]int) }}, "raw": {rec[json.RawMessage], func() any { return new(json.RawMessage) }},
-		"iface": {rec[any], func() any { return new(any) }},
+		"iface":  {rec[any], func() any { return new(any) }},
+		"ptrptr": {rec[**KS], func() any { return new(**KS) }}, "ptrint": {rec[*int], func() any { return new(*int) }},
+		"ptrslice": {rec[*[]int], func() any { return new(*[]int) }},
 	}
 	for _, strict := range []bool{false, true} {
 		got = nil
@@ -536,7 +561,11 @@ func checkKind(c KindCell, res *result) {
 			want := kinds[c.Kind].zero()
 			var jerr error
 			if params != "" && params != "null" {
-				jerr = json.Unmarshal([]byte(params), want)
+				dec := json.NewDecoder(strings.NewReader(params))
+				if strict { // (matters for a struct reached through pointers only)
+					dec.DisallowUnknownFields()
+				}
+				jerr = dec.Decode(want)
 			}
 			if c.Kind == "raw" {
 				jerr = nil
@@ -550,8 +579,8 @@ func checkKind(c KindCell, res *result) {
 				}
 			} else if herr != nil || len(got) != 1 {
 				res.add("C15", c, params, fmt.Sprintf("encoding/json accepts these params but calls=%d err=%v", len(got), herr))
-			} else if !reflect.DeepEqual(got[0], reflect.ValueOf(want).Elem().Interface()) {
-				res.add("C15", c, params, fmt.Sprintf("function received %#v, encoding/json decodes %#v", got[0], reflect.ValueOf(want).Elem().Interface()))
+			} else if g, w := derefAll(reflect.ValueOf(got[0])), derefAll(reflect.ValueOf(want).Elem()); !reflect.DeepEqual(g, w) {
+				res.add("C15", c, params, fmt.Sprintf("function received %#v, encoding/json decodes %#v", g, w))
 			}
 		}
 	}
